@@ -14,7 +14,9 @@
    Ops    = Define parents own_tags(per key name) tagger_tags(per tagger function) own_required_fields keyerror_hook
           | Decode site present_keys(with hashable / unhashable values) present_fields
           | DecodeSeq [(site, keys, fields)]   (one call of a holder with several discriminated fields)
-          | DecodeBad site                      (the input is not a mapping).
+          | DecodeBad site                      (the input is not a mapping)
+          | DecodeF format site keys fields      (the same call through from_msgpack / orjson's from_json: the dispatcher
+                                                 compiled for that format; [comp]/[cur] below).
    One dispatcher function for both modes; entering a class is a leaf (accept / reject / leak KeyError) or a nested
    dispatcher of either mode.  This file holds only executable definitions (it must keep running when a proof breaks). *)
 From Coq Require Import List Arith Bool.
